@@ -107,7 +107,9 @@ React(h, e) ==
            IF e.kind = "ok" THEN
              IF h[d].live /\ h[d].cs \in {"OpenConfirm", "Established"}
              THEN Rx("Collision", {}, FALSE, FALSE, 0)
-             ELSE Rx("General", {}, FALSE, FALSE, 1)          \* 8.2.2 OpenSent, Event 19: sends KEEPALIVE
+             \* 8.2.2 OpenSent, Event 19: sends KEEPALIVE.  Own name for the case that the session FSM is
+             \* reported Idle while the connection manager's outgoing connection receives the OPEN.
+             ELSE Rx(IF h.st = "Idle" THEN "IdleOpen" ELSE "General", {}, FALSE, FALSE, 1)
            ELSE IF e.kind = "unsupopt" THEN Err("UnsupOpt", OpenErr(e.kind))
            ELSE Err("General", OpenErr(e.kind))
          ELSE IF cs = "OpenConfirm" THEN Err("OCUnexpected", {<<5, 2>>})   \* RFC 6608
@@ -257,6 +259,7 @@ Apparent(hc, e, now, cfgHold) ==
                     !.due = IF KaInt(hc.neg) > 0 THEN hc.due \cup {now + KaInt(hc.neg)} ELSE {},
                     !.taint = hc.taint \/ e.ev = "Garbage"]
     [] e.ev \in {"Keepalive", "Update"} /\ hc.cs = "Established" -> [hc EXCEPT !.lastRx = now]
+    [] e.ev = "Garbage" /\ e.kind = "kalen" /\ hc.cs = "Established" -> [hc EXCEPT !.lastRx = now, !.taint = TRUE]
     [] OTHER -> hc
 
 SentOpen(oc) == Count(oc.msgs, "OPEN") > 0
@@ -297,6 +300,7 @@ ExpAdmin(h, e) ==
 (* two live connections both past OpenSent, or the speaker visibly using the outgoing
    connection (KEEPALIVE sent on it) while still reporting OpenSent on the incoming one *)
 TwoHigh(h) == \A c \in ConnIds : h[c].live /\ h[c].cs \in {"OpenConfirm", "Established"}
+ParkedShape(h, st) == st = "Idle" /\ h[CO].live /\ h[CO].cs = "OpenConfirm"
 StuckShape(h, st) == /\ st = "OpenSent" /\ h[CI].live /\ h[CI].cs = "OpenSent"
                      /\ h[CO].live /\ h[CO].cs = "OpenConfirm"
 
@@ -305,7 +309,7 @@ HNext(h, e, o) ==
       co2 == ConnNext(h, e, o, CO)
       h1 == [h EXCEPT !.ci = ci2, !.co = co2]
       estNow == {c \in ConnIds : h1[c].live /\ h1[c].cs = "Established" /\ h[c].cs # "Established"}
-      susp2 == (h.susp /\ LiveConns(h1) # {}) \/ TwoHigh(h1) \/ StuckShape(h1, o.st)
+      susp2 == (h.susp /\ LiveConns(h1) # {}) \/ TwoHigh(h1) \/ StuckShape(h1, o.st) \/ ParkedShape(h1, o.st)
       oneshot == e.ev \in {"Shutdown", "ResetPeer"} /\ EstConns(h) = {}
       stale == \E c \in ConnIds : \E p \in NotifPairs(o[c].msgs) : p \in {<<6, 2>>, <<6, 4>>}
   IN [h1 EXCEPT
@@ -355,7 +359,9 @@ Dev_OCUnexpected(h, e, o) ==       \* closes without the FSM-error NOTIFICATION
 Dev_EstOpen(h, e, o) ==            \* OPEN in Established silently ignored
   \A c \in ConnIds : Untouched(h, o, c)
 Dev_UnsupOpt(h, e, o) ==           \* treated as a valid OPEN
-  LET c == CId(e) IN ConnOK(o[c], Rx("General", {}, FALSE, FALSE, 1), h.now, {""}) /\ Untouched(h, o, Other(c))
+  LET c == CId(e) IN
+  \/ ConnOK(o[c], Rx("General", {}, FALSE, FALSE, 1), h.now, {""}) /\ Untouched(h, o, Other(c))
+  \/ c = CO /\ \A x \in ConnIds : Untouched(h, o, x)     \* ... or parked like a valid one (outgoing connection)
 Dev_Spurious(h, e, o) ==           \* the parked administrative Cease fires on the next session
   LET c == CId(e) IN
   /\ h.parked # <<>>
@@ -368,9 +374,14 @@ Dev_KaLen(h, e, o) ==              \* treated as a KEEPALIVE
   /\ IF h[c].cs = "OpenSent" THEN ConnOK(o[c], Err("General", {<<5, 1>>}), h.now, {""})
      ELSE \/ Quiet(o[c]) /\ ~o[c].closed
           \/ h[c].cs = "OpenConfirm" /\ Dev_Spurious(h, e, o)     \* ... and the parked Cease fires
+Dev_IdleOpen(h, e, o) ==            \* the completed outgoing connection is parked: no KEEPALIVE until the next Active
+  \A c \in ConnIds : Untouched(h, o, c)
 Dev_ManualStopEarly(h, e, o) ==    \* connections in OpenSent / OpenConfirm closed without the Cease
   \A c \in ConnIds :
-    IF c \in Early(h) THEN Quiet(o[c]) /\ o[c].closed
+    IF c \in Early(h)
+    THEN /\ Quiet(o[c])
+         \* ... or, when the session itself is Idle, the connection manager's attempt is not even closed
+         /\ (o[c].closed \/ (h.st = "Idle" /\ c = CO /\ e.ev = "Disable"))
     ELSE IF h[c].live /\ h[c].cs = "Established"
     THEN ConnOK(o[c], Err("General", CeaseOr9(h, "Established", IF e.ev = "Disable" THEN 2 ELSE 3)), h.now,
                 {IF e.ev = "Disable" THEN CommHex(e.comm) ELSE ""})
@@ -425,7 +436,7 @@ Dev_TaintedEstablished(h, e, o, h2) ==
 
 (* -- C07_ReportedMatchesReal: ListPeer and the WatchEvent(peer) stream agree with each other and
       with the state the connections are really in. *)
-P_ReportedMatchesReal(h, e, o, h2) ==
+ReportedOK(h, e, o, h2, lenient) ==
   LET top == Top(h2) IN
   /\ (Len(o.wev) > 0 /\ o.st # "None") => o.wev[Len(o.wev)].st = o.st
   /\ (Len(o.wev) = 0) => o.st = h.st
@@ -440,8 +451,14 @@ P_ReportedMatchesReal(h, e, o, h2) ==
        \* Idle: nothing is open, except the outgoing connection attempt that the connection manager
        \* runs on its own (its OpenSent phase is never reported); administratively down: nothing at all
        /\ (o.st = "Idle") => \A c \in LiveConns(h2) : h2[c].cs = "None" \/ (c = CO /\ h2[c].cs = "OpenSent")
-       /\ (o.admin # "Up") => (o.st = "Idle" /\ \A c \in LiveConns(h2) : h2[c].cs = "None")
+       /\ (o.admin # "Up") => o.st = "Idle"
+       /\ lenient \/ ((o.admin # "Up") => \A c \in LiveConns(h2) : h2[c].cs = "None")
+       /\ lenient => ((o.admin # "Up") => \A c \in LiveConns(h2) : h2[c].cs = "None" \/ c = CO)
   /\ h2.deleted => \A c \in ConnIds : ~h2[c].live \/ h2[c].cs = "None"
+P_ReportedMatchesReal(h, e, o, h2) == ReportedOK(h, e, o, h2, FALSE)
+(* known deviation (KF-C07-manualstop): DisablePeer in Idle leaves the connection manager's outgoing
+   connection open, so a connection exists while the peer is administratively down *)
+Dev_DownButOutgoing(h, e, o, h2) == ReportedOK(h, e, o, h2, TRUE)
 
 (* -- C07_NoRibEffectBeforeEstablished: routing messages received on a connection that is not
       Established never change a RIB, and (without graceful restart) no route of the peer is in a
